@@ -173,7 +173,7 @@ func contains(xs []string, x string) bool {
 	return false
 }
 
-var nameAlphabet = []string{"0", "1", "2", "9", "a", "b", "Z", "A", ".", "-", "_", "é", "10", "02", " ", "~", "pb", ".gtfsrt"}
+var nameAlphabet = []string{"0", "1", "2", "9", "a", "b", "Z", "A", ".", "-", "_", "é", "10", "02", " ", "~", "pb", ".gtfsrt", ".tmp", ".gz", ".json", "README", ".pb", "#", "%", "(1)"}
 
 func drawName(t *sim.T, used map[string]bool, i int) string {
 	for attempt := 0; ; attempt++ {
